@@ -434,14 +434,14 @@ Definition atoms_trivial (l : list atom) : bool :=
   | _ => false
   end.
 
-(* xsi:type written in Clark notation denotes a QName *)
-Definition attr_atoms (q : qname) (l : list atom) : list atom :=
-  if qname_eqb q q_xsi_type then
-    match l with
-    | [AText s] => if startswith [c_lbrace] s then [AQName (clark_split s)] else l
-    | _ => l
-    end
-  else l.
+(* the atoms of an attribute value; xsi:type written as a string in Clark notation denotes a QName *)
+Definition attr_atoms (q : qname) (v : wvalue) : option (list atom) :=
+  match v with
+  | VAtom (AText s) =>
+      if qname_eqb q q_xsi_type && startswith [c_lbrace] s then Some [AQName (clark_split s)]
+      else Some [AText s]
+  | _ => atoms_of_value v
+  end.
 
 Record eframe := { ef_name : qname; ef_attrs : list (qname * list atom); ef_kids : list enode;
                    ef_content : bool (* a child or a value was supplied *);
@@ -481,10 +481,10 @@ Fixpoint etree_go (evs : list wevent) (stack : list eframe) (root : option enode
                          ef_started := false |} :: stack') root
       end
   | WAttr q v :: r =>
-      match stack, atoms_of_value v with
+      match stack, attr_atoms q v with
       | f :: rest, Some l =>
           if ef_started f then None
-          else etree_go r ({| ef_name := ef_name f; ef_attrs := set_attr q (attr_atoms q l) (ef_attrs f);
+          else etree_go r ({| ef_name := ef_name f; ef_attrs := set_attr q l (ef_attrs f);
                               ef_kids := ef_kids f; ef_content := ef_content f;
                               ef_started := false |} :: rest) root
       | _, _ => None
